@@ -104,7 +104,6 @@ func evalExpr(menu []spec.Batch, e enum.Expr, mode uint32) (*evald, error) {
 	if e.Leaf != 0 {
 		b := menu[e.Leaf-1]
 		rv.exp = ref.FromBatch(b)
-		prepareVecBatch(b)
 		seg, _, err := zx.Build(b, mode)
 		if err != nil {
 			return rv, fmt.Errorf("build of M%d: %v", e.Leaf-1, err)
@@ -313,6 +312,9 @@ func runMerge(which string) func(ci interface{}, a *run.Acc) {
 	return func(ci interface{}, a *run.Acc) {
 		c := *ci.(*enum.MergeCase)
 		menu := enum.Menu(c.Menu)
+		// vector ids carry 31 random bits: seed once per case (replayable), never per
+		// build, so that two builds inside one case do not get colliding ids
+		prepareVecBatch(nil)
 		ev, err := evalExpr(menu, c.E, c.Mode)
 		defer ev.close()
 		a.Trace(1)
